@@ -3,6 +3,7 @@ package main
 import (
 	"fmt"
 	"go/ast"
+	"go/printer"
 	"go/token"
 	"strconv"
 	"strings"
@@ -307,6 +308,9 @@ func init() {
 			b.WriteString(c26def("cond_NotSucceeded", params, c26env{v, "case"}.expr(cond)))
 		}
 
+		// --- findMatchingTestCase / Add
+		b.WriteString(c26match(f))
+
 		// --- looksLikeJUnitXMLTestResults: return bytes.HasPrefix(b, []byte{...}) || ...
 		{
 			_, fx := parseFile("src/test/xml_results.go")
@@ -377,4 +381,114 @@ func init() {
 		}
 		return b.String()
 	}
+}
+
+// c26src renders a node back to source with all white space removed (a fail-closed fingerprint of a shape)
+func c26src(n ast.Node) string {
+	var b strings.Builder
+	if err := printer.Fprint(&b, token.NewFileSet(), n); err != nil {
+		failShape("C26Counters: cannot print a node: %v", err)
+	}
+	return strings.Join(strings.Fields(b.String()), "")
+}
+
+// c26match: TestSuite.Add must be exactly the loop the model's add_one/add_all transcribe, and
+// findMatchingTestCase must be `for idx := range *cases { o := (*cases)[idx]; if COND { return idx } }; return -1`
+// where COND is a boolean combination of the comparisons of the two Names and of the two ClassNames.
+// COND becomes Gen.match_case (nm cl : bool).
+func c26match(f *ast.File) string {
+	add := findFunc(f, "TestSuite", "Add")
+	recv := add.Recv.List[0].Names[0].Name
+	if len(add.Type.Params.List) != 1 || len(add.Type.Params.List[0].Names) != 1 {
+		failShape("C26Counters: TestSuite.Add: unexpected parameters")
+	}
+	if _, ok := add.Type.Params.List[0].Type.(*ast.Ellipsis); !ok {
+		failShape("C26Counters: TestSuite.Add: parameter is not variadic")
+	}
+	cases := add.Type.Params.List[0].Names[0].Name
+	if len(add.Body.List) != 1 {
+		failShape("C26Counters: TestSuite.Add: body is not a single loop")
+	}
+	rs, ok := add.Body.List[0].(*ast.RangeStmt)
+	if !ok || rs.Value == nil || !c26isIdent("_")(rs.Key) || !c26isIdent(cases)(rs.X) {
+		failShape("C26Counters: TestSuite.Add: not `for _, c := range cases`")
+	}
+	v := rs.Value.(*ast.Ident).Name
+	tc := recv + ".TestCases"
+	want := "{idx:=findMatchingTestCase(&" + v + ",&" + tc + ")" +
+		"ifidx>=0{" + tc + "[idx].Executions=append(" + tc + "[idx].Executions," + v + ".Executions...)}" +
+		"else{" + tc + "=append(" + tc + "," + v + ")}}"
+	if got := c26src(rs.Body); got != want {
+		failShape("C26Counters: TestSuite.Add: loop body is %s, expected %s", got, want)
+	}
+
+	fd := findFunc(f, "", "findMatchingTestCase")
+	ps := fd.Type.Params.List
+	if len(ps) != 2 || len(ps[0].Names) != 1 || len(ps[1].Names) != 1 || len(fd.Body.List) != 2 {
+		failShape("C26Counters: findMatchingTestCase: unexpected signature or body")
+	}
+	probe, list := ps[0].Names[0].Name, ps[1].Names[0].Name
+	if c26src(ps[0].Type) != "*TestCase" || c26src(ps[1].Type) != "*TestCases" {
+		failShape("C26Counters: findMatchingTestCase: unexpected parameter types")
+	}
+	loop, ok := fd.Body.List[0].(*ast.RangeStmt)
+	if !ok || loop.Value != nil || loop.Key == nil || loop.Tok != token.DEFINE || c26src(loop.X) != "*"+list || len(loop.Body.List) != 2 {
+		failShape("C26Counters: findMatchingTestCase: not `for idx := range *cases { two statements }`")
+	}
+	idx := loop.Key.(*ast.Ident).Name
+	as, ok := loop.Body.List[0].(*ast.AssignStmt)
+	if !ok || as.Tok != token.DEFINE || len(as.Lhs) != 1 || len(as.Rhs) != 1 || c26src(as.Rhs[0]) != "(*"+list+")["+idx+"]" {
+		failShape("C26Counters: findMatchingTestCase: first statement is not `o := (*cases)[idx]`")
+	}
+	orig := as.Lhs[0].(*ast.Ident).Name
+	is, ok := loop.Body.List[1].(*ast.IfStmt)
+	if !ok || is.Init != nil || is.Else != nil || c26src(is.Body) != "{return"+idx+"}" {
+		failShape("C26Counters: findMatchingTestCase: second statement is not `if cond { return idx }`")
+	}
+	if c26src(fd.Body.List[1]) != "return-1" {
+		failShape("C26Counters: findMatchingTestCase: does not end in `return -1`")
+	}
+	field := func(x ast.Expr, who string) (string, bool) {
+		sel, ok := x.(*ast.SelectorExpr)
+		if !ok || !c26isIdent(who)(sel.X) {
+			return "", false
+		}
+		return sel.Sel.Name, true
+	}
+	var cond func(x ast.Expr) string
+	cond = func(x ast.Expr) string {
+		switch e := x.(type) {
+		case *ast.ParenExpr:
+			return cond(e.X)
+		case *ast.UnaryExpr:
+			if e.Op == token.NOT {
+				return "(negb " + cond(e.X) + ")"
+			}
+		case *ast.BinaryExpr:
+			switch e.Op {
+			case token.LAND:
+				return "(" + cond(e.X) + " && " + cond(e.Y) + ")"
+			case token.LOR:
+				return "(" + cond(e.X) + " || " + cond(e.Y) + ")"
+			case token.EQL, token.NEQ:
+				a, okA := field(e.X, orig)
+				bb, okB := field(e.Y, probe)
+				if !okA || !okB {
+					a, okA = field(e.X, probe)
+					bb, okB = field(e.Y, orig)
+				}
+				if okA && okB && a == bb && (a == "Name" || a == "ClassName") {
+					r := map[string]string{"Name": "nm", "ClassName": "cl"}[a]
+					if e.Op == token.NEQ {
+						r = "(negb " + r + ")"
+					}
+					return r
+				}
+			}
+		}
+		failShape("C26Counters: findMatchingTestCase: condition %s is not a boolean combination of `o.Name == c.Name` and `o.ClassName == c.ClassName`", c26src(x))
+		return ""
+	}
+	return "(* findMatchingTestCase: nm = (o.Name == c.Name), cl = (o.ClassName == c.ClassName); TestSuite.Add and the search loop\n" +
+		"   were matched literally *)\n" + c26def("match_case", "(nm cl : bool)", cond(is.Cond))
 }
